@@ -69,10 +69,20 @@ def wrs_file(script, rng, nnames, reps, tag="wrs", small=False):
         for _ in range(rng.randrange(0, 3)):
             lines.append(addr_line(tgt, ip(True), rng.choice([None, 1, 0, 2])))
         owners += ["mx%d.%s" % (j, z), "q.sub%d.%s" % (j, z)]
+    # one IPv4-only host named twice in a reply: two MX of one owner, and MX + NS of one owner
+    for j in range(2):
+        host = "shared%d.%s" % (j, z)
+        for _ in range(rng.randrange(2, 4)):
+            lines.append(addr_line(host, ip(False), rng.choice([None, 1, 2])))
+        lines.append(L("@", nm("mm%d.%s" % (j, z)), x=nm(host), num=[10]))
+        lines.append(L("@", nm("mm%d.%s" % (j, z)), x=nm(host), num=[20]))
+        lines.append(L("&", nm("dd%d.%s" % (j, z)), x=nm(host)))
+        lines.append(L("&", nm("dd%d.%s" % (j, z)), x=nm(host), ttl=77))
+        owners += ["mm%d.%s" % (j, z), "q.dd%d.%s" % (j, z)]
     script.file(lines, rng, tag=tag)
     for o in owners:
         for loc in (0, LOCA, LOCB):
-            for qt in ((1, 28) if not o.startswith(("mx", "q.sub")) else (15, 1)):
+            for qt in ((1, 28) if not o.startswith(("mx", "q.sub", "mm", "q.dd")) else (15, 1)):
                 for ma in rng.sample(range(1, 9), 3):
                     q, c = semlib.query(nm(o), qt, clients[loc], maxans=ma)
                     script.q(q, c, tag=tag, reps=reps)
@@ -85,6 +95,10 @@ def freq_file(script, rng, n):
     qs = []
     vecs = [[1, 1], [1, 3], [2, 1, 1], [1, 2, 3], [5, 1], [1, 0, 1], [3, 3, 3, 3], [1, 1, 1, 1, 1, 1], [4, 1, 1, 0, 2]]
     rng.shuffle(vecs)
+    # huge weights: only their ratio matters (the judge divides by the gcd); 2^32-1 is the largest weight the format takes
+    big = [[4294967295, 4294967295], [1000000000, 2000000000], [3000000, 1000000, 2000000], [2000000000, 2000000000, 2000000000, 2000000000]]
+    rng.shuffle(big)
+    vecs = vecs[:max(1, n - 2)] + big[:2]
     for i, ws in enumerate(vecs[:n]):
         owner = "p%d.%s" % (i, z)
         v6 = rng.random() < 0.3
@@ -94,6 +108,9 @@ def freq_file(script, rng, n):
         for j, w in enumerate(order):
             ip = ("2001:db8:f::%x" % (i * 16 + j + 1)) if v6 else "10.88.%d.%d" % (i, j + 1)
             lines.append(addr_line(owner, ip, w if not (w == 1 and rng.random() < 0.5) else None, wild=wild))
+        if max(ws) > 1000:
+            qs.append(semlib.query(nm(("y." + owner) if wild else owner), 28 if v6 else 1, "10.9.9.9", maxans=1))
+            continue                      # no located extra candidate here: keep the ratios exact
         # a located candidate that a client without location must never draw
         lines.append(addr_line(owner, "10.89.%d.1" % i if not v6 else "2001:db8:e::%x" % (i + 1), 3, loc=LOCA, wild=wild))
         qs.append(semlib.query(nm(("y." + owner) if wild else owner), 28 if v6 else 1, "10.9.9.9", maxans=1))
